@@ -95,6 +95,15 @@ package vm
 //@   invariant forall a common.Address :: (a in tracker) == (visited[a] && (a in t))
 //@   invariant forall a common.Address :: (a in tracker) ==> tracker[a] == t[a]
 
+// sortedAddresses: the keys of t, sorted byte-wise (collect loop + sort.Slice with a comparison closure). ASSUMED summary:
+// sort.Slice takes the slice as `any` and a closure (higher-order, generic over the element type), which the engine
+// cannot give a sound frame; what callers use is only that every returned element is a key of t (sort.Slice permutes).
+//@ func (t AccountTracker) sortedAddresses() []common.Address
+//@   assumed
+//@   modifies nothing
+//@   ensures (forall i int :: (0 <= i && i < len(result)) ==> (result[i] in t)) && (len(result) == 0 || fresh(base(result)))
+//@   panics never
+
 // ---------------------------------------------------------------------------------------------
 // state_db_logs.go — Logs (slice of log pointers; the log objects themselves are never mutated by the StateDB)
 // ---------------------------------------------------------------------------------------------
@@ -679,7 +688,8 @@ package vm
 //@   panics any
 //@ loop 1
 //@   modifies view(layer(d.currentCtx)), evlog[payload(d.currentCtx.EventManager())]
-//@   invariant[C15.commit_loop_justified,C06.commit_loop_justified,C04.commit_loop_justified] forall a common.Address :: acctUntouched(layer(d.currentCtx), a) || (visited[a] && destroyJustified(d, a, deleteEmptyObjects))
+//@   invariant[C15.commit_loop_justified,C06.commit_loop_justified,C04.commit_loop_justified] forall a common.Address :: acctUntouched(layer(d.currentCtx), a) || destroyJustified(d, a, deleteEmptyObjects)
+//@   invariant[C04.commit_loop_balances_nonneg] forall a bytes, den string :: bankBal[layer(d.currentCtx)][a][den] >= 0
 //@   invariant[C04.commit_loop_supply] forall den string :: bankSupply[layer(d.currentCtx)][den] <= old(bankSupply[layer(d.currentCtx)][den])
 //@ loop 2
 //@   modifies views, evlog
